@@ -67,7 +67,7 @@ Definition af_default := {| af_out := false; af_conn := false; af_redef := false
 
 (* the inner `self.add(f, "buf")` of add_connected_nodes (f is known to be absent) *)
 Definition add_plain_buf (c : circuit) (f : string) : circuit * outcome :=
-  if bool_decide (f = "") then (c, Fail IndexError) else
+  if bool_decide (f = "") then (c, Fail ValueError) else
   if starts_digit f then (c, Fail ValueError) else
   (<[f := mk_node Buf false ∅]> c, Done).
 
@@ -79,7 +79,7 @@ Definition add_g (c : circuit) (n : string) (t : gtype) (fi fo : list string) (f
   if negb (bool_decide (t ∈ supported_types)) then (c, Fail ValueError, n) else
   if (1 <? length fi)%nat && bool_decide (t ∈ add_single_fanin) then (c, Fail ValueError, n) else
   if negb (bool_decide (fi = [])) && bool_decide (t ∈ add_no_fanin) then (c, Fail ValueError, n) else
-  if bool_decide (n = "") then (c, Fail IndexError, n) else
+  if bool_decide (n = "") then (c, Fail ValueError, n) else
   if starts_digit n then (c, Fail ValueError, n) else
   (* graph.add_node on an existing node overwrites the attributes and keeps its edges *)
   let c1 := <[ n := mk_node t (af_out fl) (fanin c n) ]> c in
@@ -90,8 +90,14 @@ Definition add_g (c : circuit) (n : string) (t : gtype) (fi fo : list string) (f
                      | _ => st end) (c1, Done) (fi ++ fo)
     else (c1, Done) in
   match o1 with Fail e => (c1', Fail e, n) | Done =>
+  (* edges n -> v that the first connect creates; they are taken back when the second connect is rejected *)
+  let new_edges := filter (λ v, negb (bool_decide (n ∈ fanin c1' v))) fo in
   let '(c2, o) := connect_g c1' [n] fo in
-  match o with Fail e => (c2, Fail e, n) | Done => let '(c3, o3) := connect_g c2 fi [n] in (c3, o3, n) end end.
+  match o with Fail e => (c2, Fail e, n) | Done =>
+    let '(c3, o3) := connect_g c2 fi [n] in
+    match o3 with
+    | Fail ValueError => (foldl (λ g v, del_edge g n v) c3 new_edges, o3, n)
+    | _ => (c3, o3, n) end end end.
 
 (* add_blackbox(bb, name, connections): registry first, then pins, then connections in dict order.
    ins/outs: iteration order of the blackbox's input and output sets *)
@@ -100,19 +106,24 @@ Definition add_blackbox (C : Circuit) (d : bbdef) (inst : string) (ins outs : li
   : Circuit * outcome :=
   if bool_decide (inst ∈ dom (c_bbs C)) then (C, Fail ValueError) else
   let C1 := with_bbs C (<[inst := d]> (c_bbs C)) in
+  (* state: graph, pins created by this call, outcome *)
   let mkpins := foldl (λ st pt, match st with
-                  | (g, Done) => let '(g', o, _) := add_g g (pin inst pt.1) pt.2 [] [] af_default in (g', o)
-                  | _ => st end) (c_g C1, Done) (((λ p, (p, BbIn)) <$> ins) ++ ((λ p, (p, BbOut)) <$> outs)) in
-  match mkpins with
-  | (g, Fail e) => (with_g C1 g, Fail e)
-  | (g, Done) =>
-    let r := foldl (λ st kv, match st with
+                  | (g, io, Done) => let '(g', o, nm) := add_g g (pin inst pt.1) pt.2 [] [] af_default in
+                                     (g', match o with Done => nm :: io | _ => io end, o)
+                  | _ => st end) (c_g C1, [], Done) (((λ p, (p, BbIn)) <$> ins) ++ ((λ p, (p, BbOut)) <$> outs)) in
+  let '(g, io, o) := mkpins in
+  let r := match o with
+           | Fail e => (g, Fail e)
+           | Done => foldl (λ st kv, match st with
                | (g, Done) =>
                   if bool_decide (kv.1 ∈ bb_in d) then connect_g g kv.2 [pin inst kv.1]
                   else if bool_decide (kv.1 ∈ bb_out d) then connect_g g [pin inst kv.1] kv.2
                   else (g, Fail ValueError)
-               | _ => st end) (g, Done) conns in
-    (with_g C1 r.1, r.2)
+               | _ => st end) (g, Done) conns
+           end in
+  match r.2 with
+  | Fail ValueError => (with_g C (remove_g r.1 io), Fail ValueError)     (* rejected: pins and registry entry are taken back *)
+  | _ => (with_g C1 r.1, r.2)
   end.
 
 (* relabel with a prefix: all nodes and all fan-in references *)
@@ -140,7 +151,11 @@ Definition add_subcircuit_gen (strip : bool) (C SC : Circuit) (name : string) (c
              | (g, Done) => if bool_decide (kv.1 ∈ sin) then connect_g g kv.2 [pre name kv.1]
                           else connect_g g [pre name kv.1] kv.2
              | _ => st end) (g2, Done) conns in
-  ({| c_name := c_name C; c_g := r.1; c_bbs := bbs |}, r.2).
+  match r.2 with
+  | Fail ValueError =>      (* rejected connection: the spliced copy and its blackbox entries are taken back *)
+      ({| c_name := c_name C; c_g := remove_g r.1 (pre name <$> elements (dom (c_g SC))); c_bbs := c_bbs C |}, r.2)
+  | _ => ({| c_name := c_name C; c_g := r.1; c_bbs := bbs |}, r.2)
+  end.
 Definition add_subcircuit := add_subcircuit_gen true.
 
 (* fill_blackbox(name, c) *)
